@@ -153,7 +153,7 @@ def rule_position_and_query(chk, rid):
     ok = len(rer) == 1 and U(kwarg(rer[0], "position")) == "e.position" and U(kwarg(rer[0], "query")) == "query"
     chk.ob(rid, f"{CMD}.CommandExecutable.parse_argv", ok, "re-raises with the inner exception's position", pa, cm, key="reraise-position")
     tm = [c for c in calls_in(pa) if call_name(c) == "ArgumentParserException" and "Too many arguments" in U(c)]
-    chk.ob(rid, f"{CMD}.CommandExecutable.parse_argv", len(tm) == 1 and kwarg(tm[0], "position") is not None, "too many arguments is reported with the first surplus token's position", pa, cm, key="too-many")
+    chk.ob(rid, f"{CMD}.CommandExecutable.parse_argv", len(tm) >= 1 and all(kwarg(t_, "position") is not None for t_ in tm), "too many arguments is reported with the first surplus token's position", pa, cm, key="too-many")
     miss = [c for c in calls_in(pa) if call_name(c) == "ArgumentParserException" and "no default" in U(c)]
     chk.ob(rid, f"{CMD}.CommandExecutable.parse_argv", len(miss) == 1, "a missing argument without default raises", pa, cm, key="missing")
 
